@@ -483,6 +483,11 @@ def memo_bases():
                  Rule("A", Seq(Lit("a"), Lit("a")), no_skip_ws=True),
                  Rule("B", Lit("a"), no_skip_ws=True)],
                 ["a", "x", "b"], ["S", "O", "A", "B"]))
+    out.append(("closure_backtrack",
+                [Rule("S", Choice(Seq(Clo(Seq(Call("I", "i"), Lit(","))), Lit("x"), Eoi()), Seq(Clo(Seq(Call("I", "i"), Lit(","))), Lit("y"), Eoi())),
+                      export=True, no_skip_ws=True),
+                 Rule("I", Clo(Lit("a"), plus=True), string=True, no_skip_ws=True)],
+                ["a", ",", "x", "y"], ["S", "I"]))
     even = {"o": "str_even", "path": "verif_common::oracles::chk_str_even", "name": "verif_common::oracles::chk_str_even"}
     out.append(("check_retry",
                 [Rule("S", Choice(Seq(Call("K", "k"), Lit("!")), Call("K", "k")), export=True, no_skip_ws=True),
@@ -699,6 +704,27 @@ def fam_uni(tier, seed):
     ]
     alpha = ["a", "A", E9, DAO, EMO]
     out = []
+    KELVIN, IDOT, LONGS = "\u212a", "\u0130", "\u017f"     # lower-case to / look like ASCII k, i, s
+    fold = [("ci_k", Lit("k", ci=True)), ("ci_ok", Lit("ok", ci=True)), ("ci_hi", Lit("hi", ci=True)), ("ci_is", Lit("is", ci=True)),
+            ("ci_clo_k", Clo(Lit("k", ci=True)))]
+    for name, body in fold:
+        rules = [Rule("S", Seq(body, Opt(Call("T", "rest"))), export=True, position=True, no_skip_ws=True),
+                 Rule("T", Clo(Call("char"), plus=True), string=True, position=True, no_skip_ws=True)]
+        g = Grammar("uni_%04d" % len(out), rules, root="S", maxlen=maxlen, meta={"shape": name})
+        g.alpha = ["k", "K", "i", "s", KELVIN, IDOT, LONGS][:7] if tier != "quick" else ["k", "i", "o", "h", KELVIN, IDOT]
+        g.maxlen = 3 if tier != "quick" else 2
+        g.extra = [list("o" + KELVIN), list("h" + IDOT), list(KELVIN + "k"), list("i" + LONGS), list(IDOT + IDOT), list("O" + KELVIN + "x")]
+        out.append(g)
+    # Unicode spaces are not whitespace: a skipping rule must neither skip them nor stop inside them
+    NBSP, EMSP, NEL, IDSP = "\u00a0", "\u2003", "\u0085", "\u3000"
+    for name, body in (("uws_lits", Seq(Lit("a"), Lit("b"))), ("uws_string", Seq(Call("W", "w"), Opt(Call("W", "v")))),
+                       ("uws_eoi", Seq(Lit("a"), Eoi()))):
+        rules = [Rule("S", body, export=True, position=True),
+                 Rule("W", Clo(Range("a", "b"), plus=True), string=True, position=True)]
+        g = Grammar("uni_%04d" % len(out), rules, root="S", maxlen=3, meta={"shape": name})
+        g.alpha = ["a", "b", " ", NBSP, EMSP]
+        g.extra = [list("a" + NEL + "b"), list("a" + IDSP + "b"), list(NBSP + "a"), list("a b" + EMSP), list("a" + NBSP + " b")]
+        out.append(g)
     for name, body in bodies:
         rules = [Rule("S", Seq(body, Opt(Call("T", "rest"))), export=True, position=True, no_skip_ws=True),
                  Rule("T", Clo(Call("char"), plus=True), string=True, position=True, no_skip_ws=True),
@@ -997,6 +1023,13 @@ def fam_bad(tier, seed):
         mk("R10_range_%s" % nm, [Rule("S", Range("a", cp), export=True)], "code" if ok else "error")
         mk("R10_charrule_%s" % nm, [Rule("S", Call("C", "c"), export=True), CharRule("C", [("lit", "a"), ("range", "b", cp)])],
            "code" if ok else "error")
+    for ctxn, wrap in (("choice_alt", lambda b: Choice(Lit("a"), b)), ("choice_first", lambda b: Choice(b, Lit("a"))),
+                       ("group_in_seq", lambda b: Seq(Lit("a"), Choice(Lit("b"), b))), ("closure", lambda b: Clo(Choice(Lit("a"), b))),
+                       ("optional", lambda b: Opt(Choice(b, Lit("a")))), ("lookahead", lambda b: Seq(Neg(Choice(Lit("a"), b)), Lit("b")))):
+        mk("R10_surrogate_in_%s" % ctxn, [Rule("S", wrap(Lit(None, cps=[0xD800])), export=True)], "error")
+        mk("R10_range_above_max_in_%s" % ctxn, [Rule("S", wrap(Range("a", 0x110000)), export=True)], "error")
+        mk("R9_ci_nonascii_in_%s" % ctxn, [Rule("S", wrap(Lit("éé", ci=True)), export=True)], "error")
+        mk("R10_ok_valid_in_%s" % ctxn, [Rule("S", wrap(Lit(None, cps=[0xD7FF])), export=True)], "code")
     # R11 include targets
     mk("R11_include_missing", [Rule("S", Seq(Inc("Nope"), Lit("a")), export=True)], "error")
     mk("R11_include_char", [Rule("S", Inc("C"), export=True), CharRule("C", [("lit", "a")])], "error")
